@@ -49,7 +49,7 @@ notes = {
  "C05": "Model-free; trusted: the snapshot procedure.",
  "C07": "Non-mutating exists/metadata on ancestors of P are not counted as escapes (needed to operate on P itself). Symlinks aside, as stated.",
  "C08": "Access times of lower entries are excluded (a layer may update them when it is read); unsupported fast-path probes (copy_file/move_* returning NotSupported) are not mutations.",
- "C09": "Layer contents are generated type-consistent (the statement defines the union for that case). Same known finding as C01.",
+ "C09": "Layer contents are generated type-consistent, except that a directory of a higher layer may shadow a same-named file of a deeper layer (a file above a directory is not generated: the pinned overlay then still shows the children below the file, and the statement does not say what the union is). Same known finding as C01.",
  "C10": "Reserved names are never probed by path, only listings/walks are inspected (nested overlays reach markers legitimately).",
  "C11": "copy_dir/move_dir with a wrong-typed or missing source and into the own subtree are not generated (unspecified / documented non-termination). Same known finding as C01.",
  "C12": "Under an injected failure only the path rules are judged (placeholder, inner namespace, relation to receiver/destination), not the error class; the injected error itself is an I/O-class error.",
